@@ -2,6 +2,7 @@ package rules
 
 import (
 	"fmt"
+	"go/token"
 	"go/types"
 	"strings"
 
@@ -18,6 +19,7 @@ func checkC03(c *an.Ctx) {
 	c.Rule("C03.3", "loop exits (E2/E3): the scheduling loop ends only through the done test or the cancelled flag, which is loaded on every pass before any launch")
 	c.Rule("C03.4", "progress premises (E2): a Waiting stage is left untouched by the gate only on rows where a dependency is Waiting or Running; every other row contributes to readiness or cancels it; the gate starts from true")
 	c.Rule("C03.5", "no unbounded wait in the scheduling goroutine (E8): every blocking operation synchronously reachable from Schedule is a sleep, a WaitGroup wait with Add/Done pairing on all paths, or a short critical section; the only loop under Schedule that sleeps and goes round (a polling wait) is the scheduling loop itself")
+	c.Rule("C03.6", "no unbounded wait under a task run (E8): every channel operation, Cond.Wait and polling loop synchronously reachable from TaskRunner.Run in the module (context set-up, hooks, output) has an unconditional waker — a stage goroutine that waits for something only a failed or absent peer would have done never finishes, and neither does the run")
 	c.NotDecided = append(c.NotDecided,
 		"liveness under every schedule (fairness of the Go scheduler, tasks that never terminate)",
 		"re-running an already finished graph",
@@ -42,6 +44,20 @@ func checkC03(c *an.Ctx) {
 		}
 		return ""
 	}})
+	if run := c.P.Func("pkg/runner", "TaskRunner", "Run"); run != nil {
+		boundedWaitsOpt(c, "C03.6", []*ssa.Function{run}, "TaskRunner.Run", waitOpts{polls: true, onlyChans: true, accepted: func(in ssa.Instruction) string { return locallyWoken(c.P, in) }})
+		n6 := 0
+		for _, o := range c.Obs {
+			if o.Rule == "C03.6" {
+				n6++
+			}
+		}
+		if n6 == 0 {
+			c.OK("C03.6", an.Short(run)+":channel-waits", run.Pos(), "no channel operation, Cond.Wait or polling loop is synchronously reachable from TaskRunner.Run in the module")
+		}
+	} else {
+		c.Und("C03.6", "runner.(*TaskRunner).Run", token.NoPos, "TaskRunner.Run not found")
+	}
 }
 
 // wgPairing checks C03.2.
